@@ -41,7 +41,8 @@ Fixpoint parse_ops (n : nat) (ns : Z) (l : list Z) : list mop :=
        else if kind =? 4 then MTimerChan vis s
        else if kind =? 5 then MStartup vis
        else if kind =? 7 then MFailCommon vis
-       else MFailChan vis s) :: parse_ops k ns t3
+       else if kind =? 8 then MFailChan vis s
+       else MAffected vis (nth 0 items 0)) :: parse_ops k ns t3
     | _ => []
     end
   | _, _ => []
@@ -55,6 +56,7 @@ Definition seq_events (s : Z) (tr : list tev) : list Z :=
                       | Deliver s' id => if s' =? s then [0; id] else []
                       | Persist s' v => if s' =? s then [1; v] else []
                       | TooLong s' f t => if s' =? s then [2; f; t] else []
+                      | Skip _ _ => []        (* an affected marker is not observable at the handler *)
                       end) tr.
 Definition zlen {A} (l : list A) : Z := Z.of_nat (length l).
 
